@@ -145,7 +145,11 @@ def main(tier):
         res.coverage['disagreements_checked'] = res.coverage.get('disagreements_checked', 0) + 1
         res.violation({'engine': 'J', 'harness': 'binding-map', 'class': '%s/%s' % (p['title'], kind)},
                       'binding map of %r: %s' % (p['wxml'][:300], desc), {'wxml': p['wxml'], 'kind': kind})
+    import os
     try:
+        if os.environ.get('VERIF_DEV_SKIP_KANI'):     # development aid only (never set by the registered commands): makes the run inconclusive
+            res.inconc('Kani part skipped (VERIF_DEV_SKIP_KANI)')
+            raise ImportError('skipped')
         from kani import runner
         runner.run_for(res, 'C07', tier, names=None if tier == 'thorough' else ['k05a_array_literal2', 'k05a_object_literal', 'k05a_call'])
     except ImportError:
@@ -252,7 +256,9 @@ def run_updater(rt, root, clo):
         tok = args[0]
         texts.append((getattr(tok, 'node', None), args[1] if len(args) > 1 else UNDEFINED))
         return UNDEFINED
-    it.call(clo, [rt.D, E, Native('updateText', T)])
+    # the updater is run on *fresh* data D': the fast path runs after a later setData, so whatever the updater computes must be a function
+    # of its own argument - a value captured from the creation pass (e.g. a hoisted `var $A=D.k` of the enclosing function) would be stale
+    it.call(clo, [D_UPD, E, Native('updateText', T)])
     ops = []
     for n in driver.walk(root):
         new = n.attrs[marks.get(id(n), 0):]
@@ -264,12 +270,33 @@ def run_updater(rt, root, clo):
     return ops
 
 
+D_UPD = z3.Const('D_upd', V)
+
+
+def decide_same(rt, cre_value, upd_value):
+    """creation value with D := D' must equal the updater's value computed from D'"""
+    import time as _t
+    it = rt.it
+    ta = z3.substitute(it.term(cre_value), (rt.D, D_UPD))
+    tb = it.term(upd_value)
+    s_ = z3.Solver()
+    s_.set('timeout', 20000)
+    for ax in it.axioms:
+        s_.add(ax)
+        s_.add(z3.substitute(ax, (rt.D, D_UPD)))
+    s_.add(ta != tb)
+    t0 = _t.time()
+    r = s_.check()
+    dt = _t.time() - t0
+    return ('unsat' if r == z3.unsat else 'sat' if r == z3.sat else 'unknown'), (s_.model() if r == z3.sat else None), dt
+
+
 def same_as_creation(rt, root, node, setter, args, text, res):
     it = rt.it
     if setter == 'text':
         if node is None or node.kind != 'T':
             return False, 'updateText on a non-text node'
-        verdict, model, dt = driver.decide_equal(it, node.text, text)
+        verdict, model, dt = decide_same(rt, node.text, text)
         res.solver_time += dt
         res.query(verdict)
         return verdict == 'unsat', 'text updater value differs from the creation value'
@@ -278,7 +305,7 @@ def same_as_creation(rt, root, node, setter, args, text, res):
     cands = [a for a in node.attrs if a[0] == setter and (not named or (a[1] and args and a[1][0] == args[0]))]
     if setter == 's' and not cands:
         # the slot name is passed to E at creation and set through R.s by the updater
-        verdict, model, dt = driver.decide_equal(it, node.slot, args[0])
+        verdict, model, dt = decide_same(rt, node.slot, args[0])
         res.solver_time += dt
         res.query(verdict)
         return verdict == 'unsat', 'slot updater value differs from the creation value'
@@ -294,7 +321,7 @@ def same_as_creation(rt, root, node, setter, args, text, res):
             continue
         if isinstance(x, JArr) or isinstance(y, JArr):
             tx, ty = it.term(x), it.term(y)
-        verdict, model, dt = driver.decide_equal(it, x, y)
+        verdict, model, dt = decide_same(rt, x, y)
         res.solver_time += dt
         res.query(verdict)
         if verdict != 'unsat':
